@@ -72,6 +72,8 @@ REJECT = ["(1", "[1, 2", "{ var a = 1;", "f(1, 2", "'abc", '"abc', "'abc\n'", "/
           "010", "08", "00", "09.5", "var n = 017", "[0, 01]", "x = 1 + 007",
           # statements on one line are separated by a semicolon (automatic semicolon insertion needs a line break, a brace or the end)
           "1 2", "var a = 1 var b = 2", "'it''s'", "var x = 5 x", "if (1) 2 else 3", "var a = 1; a++ a", "f() g()", "x = 1 y = 2", "return 1 2", "var o = {a: 1} var p = 2", "break lbl x", "throw 1 2",
+          # nothing is called or indexed on a postfix update
+          "var a = 0; a++[a]", "var a = 0; a++(a)", "var a = 0; a++.x", "var a = 0; a-- [0]",
           # no line break between throw and its value
           "throw\n1", "try { throw\n new Error('x') } catch (e) { }", "function f(){ throw /* a\n b */ 1 }",
           # elements of an array literal are separated by commas
@@ -105,7 +107,7 @@ ACCEPT_SAME = [("1+2*3", " 1 +\t2 /*c*/ * // d\n 3 "), ("var a=[1,2,3];a[1]", "v
                ("var f=1?x=>x+1:null;f(4)", "5"), ("var y=1;var r=0?1:0?2:y+=5;r", "6"), ("var a=0?1:2,b=3;b", "3"),
                # a line break before ++ / -- ends the statement: the operator belongs to what follows
                ("var a=1,b=5;a\n++b;[a,b].join()", "'1,6'"), ("var a=1,b=5;a\n--b;[a,b].join()", "'1,4'"), ("var x;x=1\n++x\nx", "2"), ("var a=1;a++\na", "2"), ("var a=1;a ++;a", "2"),
-               ("var a=1,b=5;a/* c\n */++b;[a,b].join()", "'1,6'"),
+               ("var a=1,b=5;a/* c\n */++b;[a,b].join()", "'1,6'"), ("var a=0;a++\n(a)", "1"), ("var a=[7];var i=0;i++\n[a][0][0]", "7"),
                # an elision is an element (it reads as undefined)
                ("[1,,2].length", "3"), ("[,].length", "1"), ("[1,,].length", "2"), ("[,,1,,].length", "4"), ("[1,,2][1]===undefined", "true"), ("[[1],,[2]].length", "3"), ("[1,].length", "1"),
                ("String([1,,3][2])", "'3'"),
